@@ -88,6 +88,24 @@ def cases(draw):
         if gap < 2 * rb_default:
             case["rhobeg"] = gap / 2.0
     case["tags"] = case["tags"] + ["box:" + box, "conv:" + conv, kind]
+    if draw(st.integers(0, 7)) == 0:
+        # the same problem posed in small absolute units (x = s*y: A/s, lam/s, s*x0, s*bounds, radii scaled): F* is unchanged, and
+        # nothing in a correct solver depends on the absolute size of the unknowns
+        s_ = draw(st.sampled_from([1e-6, 1e-4, 1e3]))
+        rb = 0.1 * max(max(abs(v) for v in case["x0"]), 1.0) if case["rhobeg"] is None else case["rhobeg"]
+        case["A"] = (np.array(case["A"], dtype=float) / s_).tolist()
+        case["x0"] = [v * s_ for v in case["x0"]]
+        case["reg"] = dict(case["reg"], lam=case["reg"]["lam"] / s_)
+        if case["lower"] is not None:
+            case["lower"] = [v * s_ if abs(v) < 1e19 else v for v in case["lower"]]
+            case["upper"] = [v * s_ if abs(v) < 1e19 else v for v in case["upper"]]
+        case["rhobeg"] = rb * s_
+        if case["lower"] is not None:
+            gaps = [u - l for l, u in zip(case["lower"], case["upper"]) if abs(l) < 1e19 and abs(u) < 1e19]
+            if gaps and min(gaps) < 2 * case["rhobeg"]:
+                case["rhobeg"] = min(gaps) / 2.0       # rounding of the rescaled bounds: keep the documented precondition gap >= 2*rhobeg
+        case["rhoend"] = min(1e-8 * s_, case["rhobeg"] * 1e-3)
+        case["tags"] = case["tags"] + ["units:%g" % s_]
     return case
 
 
